@@ -375,10 +375,10 @@ def is_clique(graph: nx.Graph) -> bool:
     Returns:
         bool: ``True`` if input graph is a clique and ``False`` otherwise
     """
-    edges = graph.edges
+    edges = graph.number_of_edges() - nx.number_of_selfloops(graph)
     nodes = graph.order()
 
-    return len(edges) == nodes * (nodes - 1) / 2
+    return edges == nodes * (nodes - 1) / 2
 
 
 def c_0(clique: list, graph: nx.Graph):
